@@ -28,16 +28,17 @@ static int vf_clock_gettime(clockid_t id, struct timespec *ts) { (void) id; clk_
 
 /* ---- world ---- */
 static char g_dir[300];
-#define NVER 5
+#define NVER 6
 /* files named by each setfile version (bit0=f1, bit1=f2, bit2=f3) and its literal text */
-static const unsigned VMASK[NVER] = { 1, 3, 6, 4, 3 };
+static const unsigned VMASK[NVER] = { 1, 3, 6, 4, 3, 1 };   /* version 5 lists f1 and f2, but f2 has been removed from disk before the setfile is written */
 static void setfile_text(int v, char *out, size_t n) {
 	switch (v) {
 	case 0: snprintf(out, n, "f1.mtbl\n"); break;
 	case 1: snprintf(out, n, "f1.mtbl\nf2.mtbl\n"); break;
 	case 2: snprintf(out, n, "f2.mtbl\nf3.mtbl\n"); break;
 	case 3: snprintf(out, n, "f3.mtbl\nnope.mtbl\njunk\n"); break;
-	default: snprintf(out, n, "%s/f1.mtbl\nf2.mtbl\n", g_dir); break;
+	case 4: snprintf(out, n, "%s/f1.mtbl\nf2.mtbl\n", g_dir); break;
+	default: snprintf(out, n, "f1.mtbl\nf2.mtbl\n"); break;
 	}
 }
 static void fold_merge(void *clos, const uint8_t *key, size_t kl, const uint8_t *v0, size_t l0, const uint8_t *v1, size_t l1, uint8_t **out, size_t *outl) {
@@ -58,6 +59,13 @@ static void world_init(void) {
 	}
 	snprintf(p, sizeof p, "%s/junk", g_dir); FILE *f = fopen(p, "w"); fputs("this is not a table\n", f); fclose(f);
 }
+static void make_table(int i) {
+	char p[400]; snprintf(p, sizeof p, "%s/f%d.mtbl", g_dir, i);
+	struct mtbl_writer *w = mtbl_writer_init(p, NULL); if (!w) return;      /* exists already */
+	char mk[3] = { 'm', (char) ('0' + i), 0 }, val[3] = { 'F', (char) ('0' + i), 0 };
+	mtbl_writer_add(w, (uint8_t *) mk, 2, (uint8_t *) val, 2); mtbl_writer_add(w, (uint8_t *) "s", 1, (uint8_t *) val, 2);
+	mtbl_writer_destroy(&w);
+}
 static void world_done(void) {
 	char cmd[400]; snprintf(cmd, sizeof cmd, "rm -rf '%s'", g_dir); if (system(cmd)) {}
 }
@@ -65,6 +73,8 @@ static int g_setserial;
 static void world_set(int v) {
 	char p[400], t[400], txt[700]; snprintf(p, sizeof p, "%s/set", g_dir); snprintf(t, sizeof t, "%s/set.tmp", g_dir);
 	setfile_text(v, txt, sizeof txt);
+	/* version 5: the listed file f2 is gone from disk; every other version finds all three table files present */
+	{ char f2[400]; snprintf(f2, sizeof f2, "%s/f2.mtbl", g_dir); if (v == 5) unlink(f2); else make_table(2); }
 	FILE *f = fopen(t, "w"); fputs(txt, f); fclose(f);
 	g_setserial++;
 	struct timespec ts[2] = { { 1000000 + g_setserial * 10, 0 }, { 1000000 + g_setserial * 10, 0 } };
@@ -298,7 +308,7 @@ static const char *fs_explain(void *ctx, const int *ops, int nops) {
 	o += snprintf(b + o, sizeof b - o, "intervals A=%u B=%u filterB=%d merge=%d %s; ops:", CFG.ivA, CFG.ivB, CFG.filtB, CFG.merge, CFG.warm ? "warm" : "cold");
 	for (int i = 0; i < nops && o < 1100; i++) {
 		int op = ops[i], h = op % 10;
-		if (op < 10) { static const char *vn[] = { "{f1}", "{f1,f2}", "{f2,f3}", "{f3,missing,junk}", "{/abs/f1,f2}" }; o += snprintf(b + o, sizeof b - o, " set%s", vn[op]); }
+		if (op < 10) { static const char *vn[] = { "{f1}", "{f1,f2}", "{f2,f3}", "{f3,missing,junk}", "{/abs/f1,f2}", "{f1,f2 but f2 deleted from disk}" }; o += snprintf(b + o, sizeof b - o, " set%s", vn[op]); }
 		else if (op == OP_TICK1) o += snprintf(b + o, sizeof b - o, " tick(1s)"); else if (op == OP_TICK3) o += snprintf(b + o, sizeof b - o, " tick(3s)"); else if (op == OP_TICK1Z) o += snprintf(b + o, sizeof b - o, " tick(1s,nsec:=0)"); else if (op == OP_TICK3Z) o += snprintf(b + o, sizeof b - o, " tick(3s,nsec:=0)");
 		else if (op == OP_DESTROY_A) o += snprintf(b + o, sizeof b - o, " destroy(A)");
 		else { static const char *kn[] = { "", "", "reload", "reload_now", "open", "step", "close", "observe" }; o += snprintf(b + o, sizeof b - o, " %s(%c)", kn[op / 10], 'A' + h); }
